@@ -112,6 +112,7 @@ package align
 //@   ensures len(blocks) == imul(len(a) + 1, len(b) + 1)
 //@   ensures forall c int :: 0 <= c && c < len(blocks) ==> cellL(fieldarr(blocks, score), fieldarr(blocks, step), a, b, len(b) + 1, mapval(m), c) && blocks[c].score >= 0.0
 //@   ensures forall c int :: 0 <= c && c < len(blocks) ==> blocks[c].score <= result.3
+//@   ensures 0 <= imax && imax < len(blocks) && result.3 == blocks[imax].score
 //@   requires has(m, key2(G, G)) && m[key2(G, G)] <= 0.0
 //@   requires forall p int :: 0 <= p && p < len(a) ==> has(m, key2(a[p], G)) && m[key2(a[p], G)] <= 0.0
 //@   requires forall q int :: 0 <= q && q < len(b) ==> has(m, key2(G, b[q])) && m[key2(G, b[q])] <= 0.0
